@@ -52,3 +52,4 @@ def rules(ctx):
     S.handover_rules(ctx)
     S.round6_rules(ctx)
     L.get_mut_cow_rules(ctx)
+    L.round7_rules(ctx)
